@@ -16,7 +16,7 @@ import (
 	"github.com/flamego/flamego/verifharness/internal/rt"
 )
 
-const rule = "case = a valid route set (1..8 routes over a shared segment pool, random order, 1..2 methods) plus 1..12 requests (the root route and the root path included), 80% built from an instance of a registered route and mutated, one in four also carrying an over-escaped URL.RawPath that decodes to the same path; " +
+const rule = "case = a valid route set (1..8 routes over a shared segment pool, random order, 1..2 methods) plus 1..12 requests (the root route and the root path included), 80% built from an instance of a registered route and mutated (in a third of the cases some routes are registered only after the first requests have been served, and everything is requested again), one in four also carrying an over-escaped URL.RawPath that decodes to the same path; " +
 	"each request is matched by route.Tree.Match and served through Flame.ServeHTTP and compared with the reference matcher (flat route list, documented priority) and with a priority-free brute force for the iff. " +
 	"non-trivial = a case with a request admitted by >=2 route forms, or decided after the reference matcher abandoned an admitting alternative, or with a mid-route match-all spanning >=2 segments, or won by the short form of an optional route; distinct by case text. " +
 	"metamorphic part (no reference matcher): adding an unrelated route, swapping adjacent registrations of different rank, registering routes for another method and extra leading slashes change no outcome. small-scope part: every ordered set of <=3 compatible routes from a fixed pool of 12 x every path of <=4 segments over 5 values"
@@ -34,6 +34,10 @@ func TestMain(m *testing.M) { evid.Main(m, "C01", rule, assumptions) }
 type Case struct {
 	Regs []rt.Reg `json:"routes"`
 	Reqs []rt.Req `json:"requests"`
+	// Late are routes registered after every request has been served once; the
+	// requests (and LateReqs, built from the new routes) are served after that.
+	Late     []rt.Reg `json:"registered_after_serving,omitempty"`
+	LateReqs []rt.Req `json:"requests_afterwards,omitempty"`
 }
 
 func checkCase(c Case) evid.Outcome {
@@ -49,6 +53,34 @@ func checkCase(c Case) evid.Outcome {
 	app, _, perr := rt.NewApp(c.Regs)
 	if perr != nil {
 		return evid.Fail("tree-vs-flame-registration", "route.AddRoute accepted the set but Flame registration panicked: %v", perr)
+	}
+	if len(c.Late) > 0 {
+		// first everything with the routes known so far, then the rest
+		first := c
+		first.Late, first.LateReqs = nil, nil
+		if o := checkCase(first); o.Violation != "" || o.Excluded > 0 {
+			return o
+		}
+		// now on one instance: serve, register more, serve again
+		for _, q := range c.Reqs {
+			if tree := trees[q.M]; tree != nil {
+				tree.Match(q.P, nil)
+			}
+			app.Serve(q)
+		}
+		for k, g := range c.Late {
+			if err := rt.AddToTrees(trees, g, len(c.Regs)+k); err != nil {
+				return evid.Fail("late-registration", "route %s %q is well-formed and conflicts with nothing, but registering it after requests had been served failed: %v", g.M, g.R, err)
+			}
+			if perr := app.Register(len(c.Regs)+k, g); perr != nil {
+				return evid.Fail("late-registration", "route %s %q is well-formed and conflicts with nothing, but registering it after requests had been served panicked: %v", g.M, g.R, perr)
+			}
+		}
+		c.Regs = append(append([]rt.Reg(nil), c.Regs...), c.Late...)
+		c.Reqs = append(append([]rt.Req(nil), c.Reqs...), c.LateReqs...)
+		out.Sub = len(c.Reqs)
+		out.NonTrivial = true
+		out.Classes = append(out.Classes, "routes-registered-after-serving")
 	}
 	compiled := map[string][]model.MRoute{}
 	for _, q := range c.Reqs {
@@ -181,6 +213,11 @@ func TestProp(t *testing.T) {
 		regs = rapid.Permutation(regs).Draw(t, "order")
 		regs = revalidate(regs)
 		c := Case{Regs: regs, Reqs: gen.Requests(t, regs, 12)}
+		if len(regs) >= 2 && rapid.IntRange(0, 2).Draw(t, "late") == 0 {
+			// some of the routes only arrive after the others have been serving
+			k := rapid.IntRange(1, len(regs)-1).Draw(t, "latefrom")
+			c = Case{Regs: regs[:k], Reqs: gen.Requests(t, regs[:k], 8), Late: regs[k:], LateReqs: gen.Requests(t, regs, 10)}
+		}
 		evid.Run(t, "routeset", c, func() evid.Outcome { return checkCase(c) })
 	})
 }
